@@ -68,7 +68,7 @@ def redeclare(spec):
     return bool(pre)
 
 
-def check_case(acc, chain_l, cur, locking, load, duty, init=None, redeclared=False, teeth_mode='rotating', reeta=False):
+def check_case(acc, chain_l, cur, locking, load, duty, init=None, redeclared=False, teeth_mode='rotating', reeta=False, scale=None):
     chain_l = [tuple(x) for x in chain_l]
     spec = menu.assign(chain_l, motor=menu.MOTOR_CUR if cur else menu.MOTOR_PLAIN, locking=locking,
                        init=init or ({'theta': [0.2, 'rad'], 'w': [1.5, 'rad/s']} if load[0] != 'pos' else
@@ -76,11 +76,13 @@ def check_case(acc, chain_l, cur, locking, load, duty, init=None, redeclared=Fal
                        teeth_mode=teeth_mode)      # position-dependent loads start several revolutions away from 0
     if redeclared and not redeclare(spec):
         return
+    if scale:
+        spec = menu.scaled(spec, scale)          # micro-mechanism: torques and inertias x scale, written in kNm / kgm^2
     stall = menu.stall_at_output(spec)
     spec['load'] = load_spec(load, stall)
     d = len(duty)
     case = {'kind': 'case', 'chain': chain_l, 'cur': cur, 'locking': locking, 'load': list(load),
-            'duty': list(duty), 'redeclared': redeclared, 'teeth_mode': teeth_mode, 'reeta': reeta}
+            'duty': list(duty), 'redeclared': redeclared, 'teeth_mode': teeth_mode, 'reeta': reeta, 'scale': scale}
     ops = [('run', DT, [DT[0] * (d - 1), 'sec'], list(duty), None)]
     if reeta:
         # after the first run a gear mating is declared again with another efficiency; same Solver continues
@@ -102,7 +104,7 @@ def check_case(acc, chain_l, cur, locking, load, duty, init=None, redeclared=Fal
     def emit(sfx, clause, k, detail):
         dd = dict(detail)
         dd.update(instant=k, chain=name)
-        acc.violation(f'C02/{sfx}' + ('/after-redeclaration' if redeclared else '') + ('/unit-ratio-mating' if teeth_mode == 'equal' else '') + ('/efficiency-redeclared-between-runs' if reeta else ''), clause, case, dd)
+        acc.violation(f'C02/{sfx}' + ('/after-redeclaration' if redeclared else '') + ('/unit-ratio-mating' if teeth_mode == 'equal' else '') + ('/efficiency-redeclared-between-runs' if reeta else '') + ('/micro-mechanism' if scale else ''), clause, case, dd)
 
     # efficiency attributes: joints must carry 1
     for i in range(1, chain.n):
@@ -150,6 +152,8 @@ def run_shard(shard, tier):
                 if has_mating and duty[0] != duty[1]:
                     # every mating with ratio exactly 1 (equal teeth): ratio and efficiency must not be confused with a joint
                     check_case(acc, chain_l, shard['cur'], locking, load, duty, teeth_mode='equal')
+                if duty[0] == 0.3:
+                    check_case(acc, chain_l, shard['cur'], locking, load, duty, scale=1e-9)
                 if first:
                     acc.sample({'chain': menu.chain_name(chain_l), 'motor_with_current': shard['cur'],
                                 'locking': locking, 'load': load, 'duty_sequence': duty})
@@ -160,6 +164,6 @@ def run_shard(shard, tier):
 def replay(case):
     acc = Acc()
     if case.get('kind') == 'case':
-        check_case(acc, case['chain'], case['cur'], case['locking'], tuple(case['load']), tuple(case['duty']), redeclared=case.get('redeclared', False), teeth_mode=case.get('teeth_mode', 'rotating'), reeta=case.get('reeta', False))
+        check_case(acc, case['chain'], case['cur'], case['locking'], tuple(case['load']), tuple(case['duty']), redeclared=case.get('redeclared', False), teeth_mode=case.get('teeth_mode', 'rotating'), reeta=case.get('reeta', False), scale=case.get('scale'))
         return acc.violations
     return run_shard(case['shard'], 'quick').violations
